@@ -205,7 +205,7 @@ def validate(ctx: Ctx, records: list, what: str) -> dict:
         slim.append({"id": r["id"], "obs": keep})
     f = ctx.tmp(f"hash_trace_{what}.json")
     f.write_text(json.dumps(slim))
-    w = int(os.environ.get("VERIF_WORKERS", "0")) or 8
+    w = min(4, int(os.environ.get("VERIF_WORKERS", "0")) or 4)
     cfg = f"SPECIFICATION Spec\nCONSTANTS\n Chains = {4 * w}\nINVARIANT Emit\nCHECK_DEADLOCK FALSE\n"
     res = run_tlc("common/ValueHash_Trace.tla", cfg, ctx.scratch / f"trace_{what}", workers=w,
                   env={"TRACE_FILE": str(f)}, timeout=1500, heap="8g")
